@@ -169,8 +169,11 @@ void group_action(vf::Ctx& c, size_t it) {
 void ellipses(vf::Ctx& c, bool th) {
   std::vector<std::array<double, 2>> ab = {{1, 1}, {4, 1}, {2.5, 0}, {1e4, 1e-4}, {1e-6, 1e-8}, {9, 8.999}, {0, 0}, {1e8, 1}, {3, 1e-9}};
   int step = th ? 1 : 4;   // in quarter degrees
-  for (auto& e : ab) for (int deg = 0; deg < 720; deg += step) for (double sigma : {0.1, 1.0, 3.0, 10.0}) {
-    double th_ = deg * M_PI / 720;
+  // principal axis every quarter / whole degree, plus axes a graded tiny angle away from the coordinate axes (negative "deg" codes)
+  std::vector<std::pair<int, double>> axes; for (int deg = 0; deg < 720; deg += step) axes.push_back({deg, deg * M_PI / 720});
+  { int code = -1; for (double base : {0.0, M_PI / 2, M_PI, -M_PI / 2}) for (double t : {1e-15, 1e-12, 1e-10, 1e-8, 1e-6, 1e-4, -1e-12, -1e-8, -1e-5}) axes.push_back({code--, base + t}); }
+  for (auto& e : ab) for (auto& ax : axes) for (double sigma : {0.1, 1.0, 3.0, 10.0}) {
+    int deg = ax.first; double th_ = ax.second;
     Eigen::Matrix2d Q; Q << std::cos(th_), -std::sin(th_), std::sin(th_), std::cos(th_);
     Eigen::Matrix2d C = Q * Eigen::Vector2d(e[0], e[1]).asDiagonal() * Q.transpose(); C = ((C + C.transpose()) / 2).eval();
     Position2D p2; p2.position = Eigen::Vector2d(3.5, -1e3); p2.covariance = C;
@@ -178,7 +181,7 @@ void ellipses(vf::Ctx& c, bool th) {
     for (int which = 0; which < 2; ++which) {
       Ellipse el = which ? uncertaintyEllipse(po, sigma) : uncertaintyEllipse(p2, sigma);
       c.eval(); if (e[1] == 0 || deg % 360) c.nontrivial();
-      std::string params = vf::JO().str("via", which ? "Pose2D" : "Position2D").num("lambda_major", e[0]).num("lambda_minor", e[1]).num("axis_deg", deg / 4.0).num("sigma", sigma).done();
+      std::string params = vf::JO().str("via", which ? "Pose2D" : "Position2D").num("lambda_major", e[0]).num("lambda_minor", e[1]).num("axis_rad", th_).num("sigma", sigma).done();
       double a = el.getMajorRadius(), b = el.getMinorRadius(), o = el.getOrientation();
       c.obs(a); c.obs(b);
       bool ok = a >= b && b >= 0 && std::isfinite(a) && std::isfinite(b) && std::isfinite(o) && el.getCenterPosition() == p2.position;
@@ -214,7 +217,7 @@ std::string vf_describe(const std::string& tier) {
   o.str("covariance_catalogue", "Q diag(d) Q^T, d from 7 patterns over {0,1e-8,1e-4,1,..,1e4} (rank-deficient included), Q identity or a product of 15 Givens rotations (3 variants)");
   o.str("attitudes", "roll {0,0.7,-2.5,3} x pitch {0,0.3,-1.2,pi/2-1.5e-3,pi/2-2e-3,-(pi/2-4e-3),pi/2-0.01} x yaw {0,0.4,-3,5.5}; cases within 1e-3 rad of gimbal lock before or after the transform are skipped (trivial)");
   o.str("transforms", "rotations: identity, yaw 0.4/-2/pi, roll 0.5, pitch pi/2-0.3-3e-3, three general axes x translations {0,(0.3,-1.2,2),(1e3,-1e3,10)}; compositions with every 4th transform");
-  o.str("ellipses", tier == "thorough" ? "9 eigenvalue pairs (rank-1, rank-0, kappa up to 1e8) x axis 0..179.75 deg step 0.25 x sigma {0.1,1,3,10} x {Position2D,Pose2D}" : "9 eigenvalue pairs (rank-1, rank-0, kappa up to 1e8) x axis 0..179 deg step 1 x sigma {0.1,1,3,10} x {Position2D,Pose2D}");
+  o.str("ellipses", tier == "thorough" ? "9 eigenvalue pairs (rank-1, rank-0, kappa up to 1e8) x axis 0..179.75 deg step 0.25 and axes {1e-15..1e-4} rad away from the coordinate axes x sigma {0.1,1,3,10} x {Position2D,Pose2D}" : "9 eigenvalue pairs (rank-1, rank-0, kappa up to 1e8) x axis 0..179 deg step 1 and axes {1e-15..1e-4} rad away from the coordinate axes x sigma {0.1,1,3,10} x {Position2D,Pose2D}");
   o.str("tolerances", "attitude as rotation: min(1e-9, 2e-14+2e-15/cos(pitch)); ellipse reconstruction 1e-12 relative to the major eigenvalue; reductions exact");
   return o.done();
 }
